@@ -9,8 +9,8 @@ ID = "C10"
 LEVEL = "fault_enumeration"
 RULE = (
     "every cut point (crash point of the byte source) of hypothesis-generated well-formed messages and streams, decoded step-wise "
-    "from a counting source owned by the harness, in both modes; six kinds of byte source (bytes, bytearray, list, iterator, "
-    "generator, counting iterator) on the whole input and on sampled cuts; Hex and SWTPMLog front-ends over a counting character "
+    "from a counting source owned by the harness, in both modes; seven kinds of byte source (bytes, bytearray, list, iterator, "
+    "generator, counting iterator, a generator fed by another running decode) on the whole input and on sampled cuts; Hex and SWTPMLog front-ends over a counting character "
     "source. Oracle: at every delivered MarshalEvent pulled <= bytes of the primitive fields emitted so far + 1 (characters: <= the "
     "position where byte emitted+1 ends); events(prefix) is a prefix of events(whole) and contains every field complete in the prefix "
     "before the depleted error; all sources give identical events, outcome class, details and remaining bytes. Non-trivial = message "
@@ -44,12 +44,26 @@ def lookahead_ok(ctx, L, obs, what, payload, limit_fn=None):
     return True
 
 
+def nested_decode_source(data):
+    """The bytes of `data`, produced lazily by another running tpmstream decode: `data` is wrapped into a TPM2B_MAX_BUFFER
+    and the BYTE events of that (outer) decode feed the decode under test - a decoder nested in a decoder, the way the text
+    front-ends feed the binary decoder from a generator."""
+    from tpmstream.io.binary import Binary
+
+    outer = len(data).to_bytes(2, "big") + bytes(data)
+    for ev in Binary.marshal(tpm_type=O.lib_type("TPM2B_MAX_BUFFER"), buffer=outer, abort_on_error=False):
+        if getattr(ev, "value", ...) is not ... and getattr(ev, "type", None) is O.lib_type("BYTE"):
+            yield int(ev.value)
+
+
 def make_sources(data):
     def g():
         for b in data:
             yield b
 
+    extra = {"nested-decode": nested_decode_source(data)} if len(data) < 65536 else {}
     return {
+        **extra,
         "bytes": bytes(data),
         "bytearray": bytearray(data),
         "list": list(data),
@@ -125,6 +139,48 @@ def check_case(ctx, L, ex):
                     return
 
 
+def check_large(ctx, L, ex):
+    """Messages with long buffers / lists (lengths around powers of two): the look-ahead invariant on the whole input in
+    both modes, and prefix relation + completeness on sampled cuts (every cut would be quadratic)."""
+    case, picks = ex
+    O.reset_state()
+    model_for_case(L, case)
+    payload = case_payload(case)
+    n = len(case.data)
+    whole = {}
+    for strict in (True, False):
+        whole[strict] = O.run_decode(case.type, case.data, command_code=case.cc, enc=case.enc, strict=strict)
+        if whole[strict].outcome["kind"] != "ok":
+            ctx.count("whole-not-accepted")
+            return
+        if not lookahead_ok(ctx, L, whole[strict], "whole", payload):
+            return
+    ctx.case(("large", case.type, case.cc, case.enc, case.data), n >= 256, sample={"type": case.type, "len": n, "flags": case.meta.get("flags")} if n >= 1024 else None)
+    ctx.count("large-messages" if n >= 256 else "messages")
+    prim_ends, tot = [], 0
+    for ev in whole[True].events:
+        if ev[2] != ELLIPSIS:
+            tot += L.width(ev[1])
+            prim_ends.append(tot)
+    for cut in sorted({p % n for p in picks} | {n - 1, n // 2}) if n else []:
+        prefix = case.data[:cut]
+        for strict in (True, False):
+            obs = O.run_decode(case.type, prefix, command_code=case.cc, enc=case.enc, strict=strict)
+            pl = dict(payload, data=prefix)
+            if not lookahead_ok(ctx, L, obs, "prefix", pl):
+                return
+            evs = [e for e in obs.events if e[0] != "!warning"]
+            d = first_diff(evs, whole[strict].events[: len(evs)])
+            if d is not None:
+                ctx.problem("C10:prefix-events", f"decoding the first {cut} of {n} bytes gives event {d} = {evs[d]}, the whole input gives something else; {case.type} ({n} bytes)", pl)
+                return
+            complete = sum(1 for e in prim_ends if e <= cut)
+            got = sum(1 for e in evs if e[2] != ELLIPSIS)
+            if got < complete:
+                ctx.problem("C10:complete-fields-missing", f"{complete} fields are complete in the first {cut} bytes but only {got} were emitted before {obs.outcome['kind']}; {case.type} ({n} bytes)", pl)
+                return
+
+
 def check_frontends(ctx, L, ex):
     from tpmstream.io.hex import Hex
     from tpmstream.io.swtpm_log import SWTPMLog
@@ -172,6 +228,8 @@ def run_shard(ctx):
     ):
         ctx.run_given(st.tuples(strat, picks), lambda ex: check_case(ctx, L, ex), ctx.share(n), name=name)
     ctx.run_given(st.tuples(gen.streams(L, max_pairs=2, rare=False), st.data()), lambda ex: check_frontends(ctx, L, ex), ctx.share(300 if q else 5000), name="frontends")
+    picks6 = st.lists(st.integers(0, 10**6), min_size=6, max_size=6)
+    ctx.run_given(st.tuples(gen.messages(L, big=True), picks6), lambda ex: check_large(ctx, L, ex), ctx.share(500 if q else 8000), name="large")
 
 
 def replay(ctx, payload):
